@@ -1348,13 +1348,17 @@ def families(quick):
     def Pd(d):
         return O(storage="packed", depth=d, **fsck)
 
-    def mem(depths, with_r, maxwants):
+    def mem(depths, with_r, maxwants, **kw):
         return B("inproc", "mem-fetch", [O(depth=d) if d else () for d in depths], fams=("h", "r") if with_r else ("h",),
-                 maxwants=maxwants)
+                 maxwants=maxwants, **kw)
 
     def clone(storages, depths):
         return B("inproc", "local-clone", [O(storage=s, **({"depth": d} if d else {}), **fsck)
                                            for s in storages for d in depths], special="clone")
+
+    def twostep(mode, d2s, **kw):
+        return B("inproc", mode, [O(d1=d1, **({"depth": d2} if d2 else {}), **kw) for d1 in (1, 2) for d2 in d2s],
+                 maxwants=1, special="twostep")
 
     small = small_dags(3)
     n4 = list(E.dags(4, 2))
@@ -1363,24 +1367,34 @@ def families(quick):
         fams.append(("in-process A: n<=3 all DAGs x tree rule 0 x 6 decorations",
                      histories(small, [R0], DECOS),
                      [mem((None, 1, 2), True, 3),
-                      B("inproc", "local-fetch", [P, L, Pd(1), Pd(2)]),
+                      B("inproc", "local-fetch", [P, Pd(1)]),
+                      B("inproc", "local-fetch", [L, Pd(2)], maxwants=1),
                       B("inproc", "local-fetch", [P], fams=("r",), maxwants=1),
-                      B("inproc", "local-push", [P, L], rtag=True),
+                      B("inproc", "local-push", [P], rtag=True),
+                      B("inproc", "local-push", [L], maxwants=1),
                       clone(("packed", "loose"), (None, 1, 2))]))
         fams.append(("in-process B: n<=3 all DAGs x tree rules 1,2 x 6 decorations",
                      histories(small, [R1, R2], DECOS),
-                     [mem((None,), True, 3),
+                     [mem((None,), False, 3),
                       B("inproc", "local-fetch", [P], maxwants=2),
-                      B("inproc", "local-push", [P], rtag=True, maxwants=2),
+                      B("inproc", "local-push", [P], maxwants=1),
                       clone(("packed",), (None,))]))
         fams.append(("in-process C: n=4 all 56 DAGs x tree rule 0 x {none,tc,t2}",
                      histories(n4, [R0], ("none", "tc", "t2")),
-                     [mem((None, 2), False, 2)]))
+                     [mem((None,), False, 2)]))
         fams.append(("in-process D: 12 named 4-commit shapes x tree rule 0 x {none,tc,t2}",
                      histories(named, [R0], ("none", "tc", "t2")),
                      [B("inproc", "local-fetch", [P], maxwants=2),
-                      B("inproc", "local-push", [P], rtag=True, maxwants=2),
+                      B("inproc", "local-push", [P], rtag=True, maxwants=1),
                       clone(("packed",), (None, 2))]))
+        fams.append(("in-process S: n<=3 all DAGs x tree rule 0, no tags: receiver made shallow by an earlier fetch; "
+                     "receiver with a commit of its own",
+                     histories(small, [R0], ("none",)),
+                     [twostep("mem-fetch", (None, 1, 2, 3)),
+                      twostep("local-fetch", (None, 2), storage="packed"),
+                      mem((None,), False, 2, alien=True),
+                      B("inproc", "local-fetch", [P], maxwants=1, alien=True),
+                      B("inproc", "local-push", [P], maxwants=2, alien=True)]))
     else:
         allsmall = [(tuple(d), t, deco) for d in small_dags(2) for t in itertools.product(range(5), repeat=len(d)) for deco in DECOS]
         full = [mem((None, 1, 2), True, 3),
@@ -1401,6 +1415,14 @@ def families(quick):
         fams.append(("in-process E: n=5 all 616 DAGs x tree rule 0 x {none,tc}",
                      histories(E.dags(5, 2), [R0], ("none", "tc")),
                      [mem((None, 2), False, 2)]))
+        fams.append(("in-process S: n<=3 all DAGs + 12 named 4-commit shapes x tree rule 0 x {none,tc}: receiver made shallow "
+                     "by an earlier fetch; receiver with a commit of its own",
+                     histories(small + named, [R0], ("none", "tc")),
+                     [twostep("mem-fetch", (None, 1, 2, 3)),
+                      twostep("local-fetch", (None, 1, 2, 3), storage="packed", **fsck),
+                      mem((None, 1), True, 3, alien=True),
+                      B("inproc", "local-fetch", [P, L], maxwants=2, alien=True),
+                      B("inproc", "local-push", [P, L], maxwants=3, alien=True)]))
     return fams
 
 
@@ -1416,58 +1438,72 @@ def proto_families(quick):
     def PB(transport, direction, rows, **kw):
         return B("proto", (transport, direction), rows, **kw)
 
+    def twostep(tr, d2s, **kw):
+        return PB(tr, "fetch", [o(d1=d1, **({"depth": d2} if d2 else {}), **kw) for d1 in ((1,) if quick else (1, 2)) for d2 in d2s],
+                  maxwants=1, special="twostep")
+
     tagdecos = DECOS[1:]
     PA = histories(small_dags(3), [R0], ("none",))
     PT = histories(small_dags(2), [R0], tagdecos)
     PC = histories(NAMED4.values(), [R0], ("none",))
-    w_small, w_named = (3, 1) if quick else (3, 3)
+    w_small, w_named = (2, 1) if quick else (3, 3)
     fams = []
     hostile = [o(hostile=k) for k in ("commit", "tag", "tree", "blob")]
     # ---- dulwich client <-> dulwich server (git:// and smart HTTP): ack mode, no-done, include-tag, depth
     for tr in ("tcp", "http"):
-        full = tr == "tcp" or not quick
+        tcp = tr == "tcp"
+        full = tcp or not quick
         ack_rows = [o(ack="single"), o(ack="multi"), o(), o(nodone=1)] if full else [o(ack="single"), o(), o(nodone=1)]
-        depth_rows = [o(depth=1), o(depth=2), o(depth=1, ack="single"), o(depth=2, nodone=1)] if full else [o(depth=1)]
-        if tr == "tcp":  # the client polls for early answers only on stateful transports
+        depth_rows = [o(depth=1), o(depth=2), o(depth=1, ack="single"), o(depth=2, nodone=1)] if not quick else [o(depth=1)]
+        lazy = dict(net="lazy") if tcp else {}
+        if tcp:  # the client polls for early answers only on stateful transports
             ack_rows += [o(net="lazy", ack="single"), o(net="lazy", ack="multi"), o(net="lazy")]
             depth_rows += [o(net="lazy", depth=1), o(net="lazy", depth=2)]
         fams.append(("%s A: n<=3 all DAGs, no tags" % tr, PA, [
-            PB(tr, "fetch", ack_rows + depth_rows + ([o(storage="loose")] if full else []), maxwants=w_small),
-            PB(tr, "push", [o(), o(ofs=0), o(sb=0)] if full else [o()], maxwants=w_small),
+            PB(tr, "fetch", ack_rows + depth_rows + ([o(storage="loose", **lazy)] if full else []), maxwants=w_small),
+            PB(tr, "push", [o(), o(ofs=0), o(sb=0)] if not quick else [o()], maxwants=w_small),
             PB(tr, "clone", [o(), o(depth=1), o(depth=2)], special="clone"),
-            PB(tr, "fetch", hostile, special="hostile"),
-        ]))
+            PB(tr, "fetch", hostile if tcp or not quick else hostile[:1], special="hostile"),
+            PB(tr, "fetch", [o(**lazy)] + ([] if quick else [o()]), alien=True, maxwants=1 if quick else 2),
+            PB(tr, "push", [o()], alien=True, maxwants=1 if quick else 2),
+        ] + ([twostep(tr, (None, 2) if quick else (None, 1, 2, 3), **lazy)] if tcp or not quick else [])))
         fams.append(("%s T: n<=2 all DAGs x 5 tag decorations" % tr, PT, [
-            PB(tr, "fetch", [o(), o(itag=1), o(itag=1, ack="single"), o(itag=1, nodone=1)] if full else [o(itag=1), o(itag=1, nodone=1)],
-               maxwants=w_small),
-            PB(tr, "fetch", [o(itag=1, depth=1)], maxwants=1),
+            PB(tr, "fetch", [o(**lazy), o(itag=1, **lazy), o(itag=1, ack="single", **lazy), o(itag=1, nodone=1)] if full
+               else [o(itag=1), o(itag=1, nodone=1)], maxwants=w_small),
+            PB(tr, "fetch", [o(itag=1, depth=1, **lazy)], maxwants=1),
             PB(tr, "push", [o()], rtag=True, maxwants=w_small),
             PB(tr, "clone", [o(), o(itag=1), o(itag=1, depth=1)], special="clone"),
             PB(tr, "fetch", hostile[:2], special="hostile"),
         ]))
         fams.append(("%s N: 12 named 4-commit shapes, no tags" % tr, PC, [
-            PB(tr, "fetch", [o(ack="single"), o(), o(depth=2)] if full else [o()], maxwants=w_named),
+            PB(tr, "fetch", [o(ack="single", **lazy), o(**lazy), o(depth=2, **lazy)] + ([o()] if tcp else []) if full else [o()],
+               maxwants=w_named),
             PB(tr, "push", [o()], maxwants=w_named),
             PB(tr, "clone", [o(), o(depth=2)], special="clone"),
         ]))
     # ---- dulwich client -> C git upload-pack / receive-pack: + thin-pack, ofs-delta, side-band-64k, v0/v2
     tr = "cgit-srv"
     fams.append(("cgit-srv A: n<=3 all DAGs, no tags", PA, [
-        PB(tr, "fetch", [o(pv=2), o(pv=0), o(pv=0, ack="single"), o(pv=0, ack="multi"),
-                         o(pv=0, ack="single", thin=0, ofs=0, sb=0), o(pv=2, depth=1), o(pv=0, depth=2),
-                         o(pv=0, net="lazy"), o(pv=0, net="lazy", ack="single"), o(pv=2, net="lazy", depth=2),
-                         o(pv=0, net="lazy", depth=1)], maxwants=w_small),
-        PB(tr, "fetch", [o(pv=0, thin=0), o(pv=0, ofs=0), o(pv=0, sb=0), o(pv=2, thin=0)], maxwants=1 if quick else 3),
+        PB(tr, "fetch", [o(pv=2), o(pv=0), o(pv=0, net="lazy"), o(pv=0, net="lazy", ack="single"), o(pv=0, net="lazy", ack="multi"),
+                         o(pv=0, net="lazy", ack="single", thin=0, ofs=0, sb=0), o(pv=2, depth=1), o(pv=0, net="lazy", depth=2)] +
+           ([] if quick else [o(pv=0, ack="single"), o(pv=0, ack="multi"), o(pv=2, net="lazy", depth=2), o(pv=0, net="lazy", depth=1)]),
+           maxwants=w_small),
+        PB(tr, "fetch", [o(pv=0, depth=1)], maxwants=1),
+        PB(tr, "fetch", [o(pv=0, net="lazy", thin=0), o(pv=0, net="lazy", ofs=0), o(pv=0, net="lazy", sb=0), o(pv=2, thin=0)],
+           maxwants=1 if quick else 3),
         PB(tr, "push", [o(), o(ofs=0), o(sb=0)], maxwants=1 if quick else 3),
         PB(tr, "clone", [o(pv=2), o(pv=0), o(pv=2, depth=1), o(pv=0, depth=2)], special="clone"),
-    ]))
+        PB(tr, "fetch", [o(pv=2), o(pv=0, net="lazy")], alien=True, maxwants=1 if quick else 2),
+        PB(tr, "push", [o()], alien=True, maxwants=1 if quick else 2),
+    ] + ([] if quick else [twostep(tr, (None, 1, 2, 3), pv=2), twostep(tr, (None, 2), pv=0, net="lazy")])))
     fams.append(("cgit-srv T: n<=2 all DAGs x 5 tag decorations", PT, [
-        PB(tr, "fetch", [o(pv=0, itag=1), o(pv=2, itag=1)] + ([] if quick else [o(pv=0), o(pv=2), o(pv=0, itag=1, depth=1)]), maxwants=w_small),
+        PB(tr, "fetch", [o(pv=0, net="lazy", itag=1), o(pv=2, itag=1)] +
+           ([] if quick else [o(pv=0, net="lazy"), o(pv=2), o(pv=0, net="lazy", itag=1, depth=1)]), maxwants=w_small),
         PB(tr, "push", [o()], rtag=True, maxwants=1 if quick else 3),
         PB(tr, "clone", [o(pv=2), o(pv=0, itag=1)], special="clone"),
     ]))
     fams.append(("cgit-srv N: 12 named 4-commit shapes, no tags", PC, [
-        PB(tr, "fetch", [o(pv=2), o(pv=0, ack="multi")] if not quick else [o(pv=2)], maxwants=w_named),
+        PB(tr, "fetch", [o(pv=2), o(pv=0, net="lazy", ack="multi")] if not quick else [o(pv=2)], maxwants=w_named),
         PB(tr, "push", [o()], maxwants=w_named),
     ]))
     # ---- C git client -> dulwich servers: server-side narrowing of multi_ack / no-done; --no-tags; depth
@@ -1481,7 +1517,8 @@ def proto_families(quick):
             PB(tr, "fetch", rows[1:] + [o(depth=1), o(depth=2)], maxwants=1 if quick else 3),
             PB(tr, "push", [o(), o(thin=0)] if not quick else [o()], maxwants=1 if quick else 3),
             PB(tr, "clone", [o(), o(depth=1)], special="clone"),
-        ]))
+            PB(tr, "fetch", [o()], alien=True, maxwants=1 if quick else 2),
+        ] + ([] if quick else [PB(tr, "push", [o()], alien=True, maxwants=1), twostep(tr, (None, 1, 2, 3))])))
         fams.append(("%s T: n<=2 all DAGs x 5 tag decorations" % tr, PT, [
             PB(tr, "fetch", [o()], rtag=True, maxwants=1 if quick else 3),
             PB(tr, "fetch", [o(tags=0)] + ([] if quick else [o(depth=1), o(ack="single")]), maxwants=1 if quick else 3),
@@ -1566,19 +1603,68 @@ def run(ctx):
             print(k, v["histories"], v["cases"])
         print("tasks", len(tasks), "declared", declared, sum(declared.values()))
         return
+    # expensive (protocol, subprocess) tasks first: better load balance; seeds permute on top
+    cost = {"inproc": 1, "proto": 4}
+    tasks.sort(key=lambda t: -max(cost[b["kind"]] * (3 if "cgit" in _block_name(b) else 1) for b, _lo, _hi in t[2]))
     pmap_acc(work, ctx.order(tasks), ctx.acc, jobs=ctx.jobs)
     n = ctx.acc.n
     total = n.get("inproc_cases", 0) + n.get("proto_cases", 0)
-    if total != sum(declared.values()):
+    if total != sum(declared.values()) and not only:
         raise HarnessError("evaluated %d cases, declared %d" % (total, sum(declared.values())))
+    classes = ctx.acc.classes
+    if not only:
+        # vacuity guard: the interesting situations must really have occurred
+        need = ["mem:fetch:partial:minimal", "local:fetch:partial:resends", "local:push:partial:minimal",
+                "local:clone:empty:uncaptured:depth1:shallow", "tcp:fetch:partial:minimal", "tcp:fetch:partial:resends",
+                "http:fetch:partial:minimal", "cgit-srv:fetch:partial:minimal", "cgit-tcp:fetch:partial:minimal",
+                "cgit-http:push:partial:minimal", "tcp:fetch:failed:GitProtocolError",
+                "mem:fetch:partial:resends:depth2:shallow:after-depth1-fetch"]
+        absent = [c for c in need if c not in classes]
+        if absent:
+            raise HarnessError("vacuity guard: outcome classes never observed: %r" % absent)
+        for counter in ("thin_packs_on_wire", "delta_packs_on_wire", "packs_with_deltas"):
+            if not n.get(counter):
+                raise HarnessError("vacuity guard: %s == 0" % counter)
+        if any(c.split(":")[2] == "hostile-want-served" for c in classes if c.count(":") >= 2):
+            pass  # reported through the containment violation, if anything leaked
+    ctx.level = "exploration"
     ctx.coverage.update(
         evaluations=total,
-        distinct_nontrivial=len(ctx.acc.classes),
-        outcome_classes=dict(sorted(ctx.acc.classes.items())),
-        rule="wip",
+        distinct_nontrivial=len([c for c in classes if not c.endswith((":minimal", ":nothing-sent"))]),
+        outcome_classes=dict(sorted(classes.items())),
+        rule=(
+            "E4 bounded-exhaustive: every history of each listed family (labelled commit DAG in topological numbering, "
+            "<=2 parents x root-tree assignment from a 5-tree sharing alphabet x tag decoration) is built from real "
+            "dulwich objects; for every block of the family EVERY (receiver downset x ref family x receiver variant x "
+            "non-empty want subset up to the bound x option row) is transferred through the real code path "
+            "(Repo.fetch between MemoryRepos, LocalGitClient fetch/clone/send_pack between disk repositories, dulwich "
+            "TCP server + TCPGitClient, WSGI smart HTTP + Urllib3HttpGitClient, SubprocessGitClient against C git "
+            "upload-pack/receive-pack (v0 and v2), C git fetch/clone/push against the dulwich git:// and http:// "
+            "servers) and judged against the by-construction object graph: completeness of the transferred closure "
+            "and of all receiver refs (cut at recorded shallow commits), byte identity, containment of the pack seen on "
+            "the wire (independent pack parser) and of the objects that physically appeared in closure(wants) + "
+            "auto-followed tags and in closure(advertised refs); depth-limited fetches against the reference depth "
+            "frontier. evaluations = transfers judged; distinct_nontrivial = observed outcome classes other than the "
+            "plain minimal / nothing-to-send successes (resends, shallow variants, failed/rejected transfers, hostile wants)."
+        ),
         exhaustive=True,
         bounds=bounds,
     )
+    ctx.assumptions += [
+        "the object graph used as oracle is recorded while the history is built (engines/refmodels/closure.py); gitlinks "
+        "are not followed; nothing in the oracle parses objects or asks a dulwich store",
+        "a transfer that raises / is rejected ('ng', non-zero git exit) is an outcome class, not a violation: the statement "
+        "speaks about successful transfers (failed classes are listed in outcome_classes)",
+        "re-sending objects the peer already has is allowed; containment is judged against closure(wants actually sent on "
+        "the wire) — C git asks for auto-followed tags in a second request",
+        "timing: the only timing-dependent decision in the transports under test is the dulwich fetch client's can_read() "
+        "poll while sending haves; it is replaced by two deterministic extremes that are both enumerated (net=eager: "
+        "answered when the server is quiescent; net=lazy: never sees early data). C git clients read synchronously.",
+        "servers bind 127.0.0.1 port 0 and are shut down at the end of every task; TCP_NODELAY is set on accepted sockets "
+        "(latency only)",
+        "C git 2.39.5; SHA-1 repositories; commit timestamps increase along the numbering (clock skew is C13's subject)",
+        "quick tier: tree rules 1,2 and 4-commit histories run through reduced blocks (see bounds); thorough widens them",
+    ]
 
 
 def replay(ctx, obj):
